@@ -324,6 +324,18 @@ class _XX:
                 if r.random() < 0.5:
                     lines.append("xl poly")
             out.append(("xxrnd:%d" % k, lines))
+        # logarithmic limits of layout::graph::transform3: the range gives decades (only decades whose power of
+        # ten the C library computes exactly), values on and around the decade bounds
+        rlg = gen.rng("C18", tier, seed, "xxlg")
+        for k in range(10 if tier == "quick" else 60):
+            lo, hi = rlg.choice([(0, 1), (1, 2), (0, 2), (1, 5), (2, 5), (5, 6)])
+            pool = [str(10 ** lo), str(10 ** hi), str(10 ** lo * 3), str(10 ** lo) + "/2", str(10 ** hi * 2), str(10 ** lo), str(10 ** hi)]
+            lines = ["xl new", "xl tr t3lg", "xl range 0 %d %d" % (lo, hi), "xl range 1 %d/2 %d/2" % (2 * lo + 1, 2 * hi - 1)]
+            for _ in range(4):
+                n = rlg.choice([1, 2, 3, 5, 8])
+                lines += ["xl new", "xl tr t3lg", "xl range 0 %d %d" % (lo, hi), "xl data 0 " + ",".join(rlg.choice(pool) for _ in range(n)),
+                          "xl walk 0", "xl apply 0", "xl poly", "xl set %d" % n, "xl apply 0", "xl poly"]
+            out.append(("xxlg:%d" % k, lines))
         # polyline::set over value stores (parts for the points, every store applied, points transformed), the
         # reset of all parts, a dimension the transformation lacks, the C++ wrappers of join / code
         r3 = gen.rng("C18", tier, seed, "xxpset")
@@ -336,6 +348,13 @@ class _XX:
                 lines.append("xl data %d %s" % (d, ",".join(r3.choice(syms) for _ in range(n))))
             for trk in ("double", "t3", "plain"):
                 lines += ["xl tr " + trk, "xl pset %d" % nd]
+            # the same polyline object again with data entirely outside the range, then visible data again
+            for d in range(nd):
+                lines.append("xl data %d %s" % (d, ",".join(r3.choice([syms[0], syms[4]]) for _ in range(n))))
+            lines += ["xl tr " + r3.choice(["double", "t3"]), "xl pset %d" % nd]
+            for d in range(nd):
+                lines.append("xl data %d %s" % (d, ",".join(r3.choice(syms) for _ in range(n))))
+            lines += ["xl pset %d" % nd]
             lines += ["xl tr double", "xl set %d" % n, "xl apply 0", "xl reset", "xl apply 0", "xl applybad", "xl poly"]
             out.append(("xxpset:%d" % k, lines))
         # dimensions of different lengths: the shorter one ends inside a part of the longer one
